@@ -61,3 +61,18 @@ package procbuilder
 //@   ensures stalled: !old(vm.InputsValid[fIn(vm, instr)]) ==> vm.Pc == old(vm.Pc) && !vm.InputsRecv[fIn(vm, instr)] &&
 //@             vm.Registers[fReg(vm, instr)] == old(vm.Registers[fReg(vm, instr)])
 //@   assigns vm.Registers[fReg(vm, instr)], vm.InputsRecv[fIn(vm, instr)], vm.Pc, vm.DeferredInstructions[*]
+
+// sicv3 counts the cycles an input stays invalid: like i2rw it acknowledges (and advances) only in a step where the
+// input's valid line is up, registers the deferred drop of the acknowledge for that input, and stalls otherwise.
+//@ func (op Sicv3) Simulate(vm *VM, instr string) error
+//@   requires vm != nil && vm.Mach != nil && 1 <= int(vm.Mach.R) && int(vm.Mach.R) <= 30 && sepFlags(vm) && vm.Pc < pow2(63) && vm.DeferredInstructions != nil && vm.Extra_states != nil
+//@   requires len(instr) >= int(vm.Mach.R) + vm.Mach.Inputs_bits()
+//@   requires fReg(vm, instr) < len(vm.Registers) && fIn(vm, instr) < len(vm.Inputs) && fIn(vm, instr) < len(vm.InputsValid) && fIn(vm, instr) < len(vm.InputsRecv)
+//@   requires haskey(vm.Extra_states, "sicv3_state") ==> istype(vm.Extra_states["sicv3_state"], uint8)
+//@   requires (vm.Mach.Rsize == 8 ==> istype(vm.Registers[fReg(vm, instr)], uint8)) && (vm.Mach.Rsize == 16 ==> istype(vm.Registers[fReg(vm, instr)], uint16)) &&
+//@            (vm.Mach.Rsize == 32 ==> istype(vm.Registers[fReg(vm, instr)], uint32)) && (vm.Mach.Rsize == 64 ==> istype(vm.Registers[fReg(vm, instr)], uint64))
+//@   ensures taken: old(vm.InputsValid[fIn(vm, instr)]) && result == nil ==> vm.InputsRecv[fIn(vm, instr)] && vm.Pc == old(vm.Pc) + 1 &&
+//@             haskey(vm.DeferredInstructions, cat("waitRecvSicv3", itoa(fIn(vm, instr))))
+//@   ensures stalled: !old(vm.InputsValid[fIn(vm, instr)]) ==> vm.Pc == old(vm.Pc) && !vm.InputsRecv[fIn(vm, instr)]
+//@   ensures unsupported: result != nil ==> vm.Pc == old(vm.Pc)
+//@   assigns vm.Registers[fReg(vm, instr)], vm.InputsRecv[fIn(vm, instr)], vm.Pc, vm.DeferredInstructions[*], vm.Extra_states[*]
